@@ -154,6 +154,27 @@ ASSUMPTIONS += [
     "builds (unprefixed names) and is not itself checked here",
 ]
 
+EXPLANATION += (
+    "  R6.25 (rules/c06_order_guard.py): the canonical-ordering visitor that runs on module A's AST before "
+    "it is printed and pickled keeps the declared order of a namedtuple's fields for every shape of base "
+    "list (marker alone, followed / preceded by Generic[T] or mixins; 1-3 bases, marker spelt as ClassType or "
+    "NamedType) - the evaluation of rules/c05_order_guard.py (R5.23) reported per (number of bases, position "
+    "of the marker): a sorted field list gives module B another __new__ signature and tuple layout.  R6.26 "
+    "(rules/c06_own_names.py): every spelling under which the printed unit defines a name (classes, "
+    "functions, constants, type parameters, aliases: bare as in the inferred AST, or module-qualified as in "
+    "a loaded stub; class methods and constants: bare, with or without an enclosing unit) makes "
+    "PrintVisitor write the qualified `typing.X` / `builtins.x` instead of the bare name; decided by "
+    "evaluating EnterTypeDeclUnit, EnterClass, _FromTyping, VisitNamedType and what they call on unit "
+    "records for unit names `m` and `pkg.m`, with a control (nothing defined -> bare name).  Blind spots: "
+    "names are Generator / list only (the code cannot know them), nested classes' members after LeaveClass, "
+    "aliases that are imports, and the reader's side (that a bare name resolves to the unit's definition "
+    "first) are not decided; constructs outside the evaluated fragment are analysis errors.")
+ASSUMPTIONS += [
+    "R6.26: the traversal calls EnterTypeDeclUnit(unit) before anything of the unit is printed and "
+    "EnterClass(cls) before the members of cls; _Imports.get_alias answers None for names nobody imported "
+    "under an alias; unit records carry the five definition tuples of pytd.TypeDeclUnit",
+]
+
 OUTPUT = "pytype/output.py"
 CONVERT = "pytype/convert.py"
 LOAD = "pytype/load_pytd.py"
